@@ -304,6 +304,55 @@ def indexed_oracle(ctx, quick):
     return n_eval
 
 
+def include_timing(ctx):
+    """files reached through the include directive are not normalised (no final newline is supplied): unclosed constructs at the end of
+    an included file without a final line end, pumped"""
+    import tempfile, shutil, subprocess, json
+    tmp = tempfile.mkdtemp(prefix="verif-c07-")
+    n_eval = 0
+    try:
+        heads = ["```{note} Title\n", "```{figure} p.png\n", "````{warning}\n", "```\n", "> ", "- ", "<div>\n", "<!--\n", "[x]: /u \"", "| a |\n|---|\n", "term\n: "]
+        units = ["a\n\n", "a\n", "\n", ":k: v\n", "a\n\n\n"]
+        script = ("import sys, time, signal; sys.path.insert(0, %r); import mistune\n"
+                  "from mistune.directives import FencedDirective, RSTDirective, Include, Admonition, Figure, Image\n"
+                  "md = mistune.create_markdown(plugins=['table', 'def_list', FencedDirective([Include(), Admonition(), Figure(), Image()])])\n"
+                  "signal.alarm(25); t = time.process_time(); md.read(sys.argv[1]); print(time.process_time() - t)\n") % common.repo_src()
+        jobs = []
+        for h in heads:
+            for u in units:
+                for n in (12, 24, 48):
+                    d = os.path.join(tmp, "c%d" % len(jobs))
+                    os.makedirs(d)
+                    with open(os.path.join(d, "inc.md"), "w", newline="") as f:
+                        f.write(h + u * n + "x")
+                    with open(os.path.join(d, "main.md"), "w", newline="") as f:
+                        f.write("```{include} inc.md\n```\n")
+                    jobs.append((h, u, n, subprocess.Popen([sys.executable, "-B", "-c", script, os.path.join(d, "main.md")], stdout=subprocess.PIPE, stderr=subprocess.PIPE, text=True)))
+                    if len(jobs) % 14 == 0:
+                        for j in jobs[-14:]:
+                            j[3].wait()
+        res = {}
+        for h, u, n, pr in jobs:
+            so, se = pr.communicate()
+            n_eval += 1
+            try:
+                res[(h, u, n)] = float(so.strip().split("\n")[-1])
+            except Exception:
+                res[(h, u, n)] = "timeout" if pr.returncode not in (0, 1) else "error"
+        for h in heads:
+            for u in units:
+                ts = [res[(h, u, n)] for n in (12, 24, 48)]
+                rep = {"prefix": h, "unit": u, "suffix": "x", "config": "include", "cpu_s": {"12": ts[0], "24": ts[1], "48": ts[2]}, "included_file": h + u * 12 + "x"}
+                if "timeout" in ts:
+                    k = (12, 24, 48)[ts.index("timeout")]
+                    ctx.fail("time:timeout:included-file", "an included file %r + %r * %d + 'x' (no final newline, %d characters) does not convert within 25 s" % (h, u, k, len(h + u * k) + 1), rep)
+                elif all(isinstance(t, float) for t in ts) and ts[2] > 0.5 and ts[2] > 30 * max(ts[1], 1e-3):
+                    ctx.fail("time:exponential:included-file", "an included file %r + %r * n + 'x': CPU time %s for n = 12, 24, 48" % (h, u, ts), rep)
+    finally:
+        shutil.rmtree(tmp, ignore_errors=True)
+    return n_eval
+
+
 FOCUS = [("<x ", "a=b\tc\t", ""), ("a <x ", "a=b\nc ", ">"), ("a >!", " ", "b"), ("x >! ", "a ", ""), ("[", "\\*", ""), ("[", "\\", ""), ("a", " ", "b"), ("[a](/u \"", "\\!", ""), ("[^", "\\]", ""), ("[x]: /u '", "\\'", ""), ("<a ", "b=\"c\" ", ""), ("", "a ", "\n"), ("", "  ", "x"),
          ("*[", "\\]", ""), ("", "\\\n", ""), ("", " \t", "x")]
 
@@ -314,6 +363,7 @@ def run(ctx):
     fams = FOCUS + families(ctx, 60 if q else 1500)
     n = count_oracle(ctx, q)
     n += indexed_oracle(ctx, q)
+    n += include_timing(ctx)
     n += oracle(ctx, fams, q)
     if ctx.broken and not ctx.failures:
         ctx.notes.append("search mode entered: " + "; ".join(ctx.broken)[:300])
